@@ -149,6 +149,7 @@ def formula_set(tier):
     else:
         Uc = F.unary_ops(((0, 1), (1, 2)), ops=PAST_U)
     fs += list(F.chains(3, Uc, F.PX))
+    fs += [f for f in F.patterns() if F.past_only(f)]
     out, seen = [], set()
     for f in fs:
         if f not in seen:
